@@ -137,13 +137,13 @@ Definition nice_at (mn mx : Q) (l : Z) : Q * Q :=
    if Qleb mx (inject_Z la * sp l) then inject_Z la * sp l else mx).
 
 Lemma lin_nice_ordered mn mx o guess : mn < mx ->
-  lin_nice base mn mx o guess =
+  lin_nice_ideal base mn mx o guess =
   match find_level o (lin_count base eb mn mx true) guess with
   | FL_ok l => NR_dom (fst (nice_at mn mx l)) (snd (nice_at mn mx l))
   | _ => NR_dom mn mx
   end.
 Proof.
-  intros H. unfold lin_nice, lin_nice_gen.
+  intros H. unfold lin_nice_ideal, lin_nice_ideal_gen.
   destruct (Qeqb mn mx) eqn:E1; [gb_bool; lra|]. destruct (Qltb mx mn) eqn:E2; [gb_bool; lra|].
   rewrite Heb. destruct (find_level o (lin_count base eb mn mx true) guess); reflexivity.
 Qed.
@@ -235,7 +235,7 @@ Proof.
   - apply ceil_le_of; [apply sp_pos' | exact U2].
 Qed.
 
-Theorem lin_nice_idempotent_at g2 : lin_nice base a b o g2 = NR_dom a b.
+Theorem lin_nice_idempotent_at g2 : lin_nice_ideal base a b o g2 = NR_dom a b.
 Proof.
   destruct nice_facts as (A1 & B1 & A2 & B2 & T1 & U1 & S0 & W & T2 & U2 & AB).
   rewrite (lin_nice_ordered a b o g2 AB).
@@ -335,11 +335,11 @@ Qed.
    every options with Max * Base <= 10^9 (Max >= 3 is not even needed: when no level fits the
    domain is left as it is both times) and whatever the two starting guesses *)
 Theorem lin_nice_idempotent mn mx o g g2 a b : (o_max o * eb <= 10 ^ 9)%Z ->
-  lin_nice base mn mx o g = NR_dom a b -> lin_nice base a b o g2 = NR_dom a b.
+  lin_nice_ideal base mn mx o g = NR_dom a b -> lin_nice_ideal base a b o g2 = NR_dom a b.
 Proof.
   intros HM H. pose proof (nice_start_ordered mn mx) as Ord.
-  assert (S : lin_nice base mn mx o g = lin_nice base (fst (nice_start mn mx)) (snd (nice_start mn mx)) o g).
-  { unfold lin_nice, lin_nice_gen, nice_start.
+  assert (S : lin_nice_ideal base mn mx o g = lin_nice_ideal base (fst (nice_start mn mx)) (snd (nice_start mn mx)) o g).
+  { unfold lin_nice_ideal, lin_nice_ideal_gen, nice_start.
     destruct (Qeqb mn mx) eqn:E1.
     - cbn [fst snd]. gb_bool.
       assert (X : Qeqb (mn - (1 # 2)) (mx + (1 # 2)) = false).
@@ -502,7 +502,7 @@ Qed.
 Theorem lin_nice_ends_are_first_last_major base eb mn mx o g g3 l a b major minor :
   lin_ebase base = Some eb -> mn < mx -> (o_max o * eb <= 10 ^ 9)%Z ->
   find_level o (lin_count base eb mn mx true) g = FL_ok l ->
-  lin_nice base mn mx o g = NR_dom a b ->
+  lin_nice_ideal base mn mx o g = NR_dom a b ->
   lin_ticks base a b o g3 = TR_ticks major minor ->
   exists t1 rest, major = t1 :: rest /\
     0 <= t1 - a <= (mx - mn) * slack_factor /\ 0 <= b - last major t1 <= (mx - mn) * slack_factor /\
